@@ -359,6 +359,10 @@ def run(prop, seed, budget, ctx):
         cf, cn = run_conv_schema(rnd, seed, budget, hist, distinct, build_module); failures += cf; evaluations += cn
         from schema_conv import run_method_schema
         cf, cn = run_method_schema(rnd, seed, budget, hist, distinct, build_module); failures += cf; evaluations += cn
+        import corners8
+        cf_, cn_, cd_, ch_ = corners8.run_part("C07", seed, budget)
+        failures += cf_; evaluations += cn_; distinct |= cd_
+        for k_, v_ in ch_.items(): hist[k_] += v_
     for f in failures:
         hist[("P:" + f["why"][0].split(":")[0]) if f["kind"] == "P" else "K"] += 1
     return {"evaluations": evaluations, "distinct_nontrivial": len(distinct),
